@@ -31,6 +31,7 @@ type LbOp struct {
 	W      int    `json:"w,omitempty"`
 	Addr   string `json:"addr,omitempty"`
 	S      string `json:"s,omitempty"` // strategy name
+	Pre    bool   `json:"pre,omitempty"` // begin: the client is already gone when the request reaches the balancer (context cancelled)
 }
 type LbCase struct {
 	Strategy                                string
@@ -111,6 +112,9 @@ func (r *lbRunner) begin(op LbOp) {
 		r.cancel = map[int]context.CancelFunc{}
 	}
 	r.cancel[op.Rid] = cancel
+	if op.Pre {
+		cancel()
+	}
 	host := op.Remote
 	if h, _, err := net.SplitHostPort(op.Remote); err == nil {
 		host = h
@@ -120,11 +124,19 @@ func (r *lbRunner) begin(op LbOp) {
 	coqop := fmt.Sprintf("CBegin %d %d %d %d", op.Rid, r.tab.get(op.XFF), r.tab.get(op.XRI), r.tab.get(host))
 	select {
 	case c := <-r.calls:
+		r.emit(coqop, fmt.Sprintf("[0; %d]", r.idOf[c.backend]))
+		r.stats["dispatched"]++
+		if op.Pre {
+			// the transport gives up at once with context.Canceled: the exchange is over, a failed request on that backend
+			synctest.Wait()
+			res := <-done
+			r.emit(fmt.Sprintf("CEnd %d 502", op.Rid), fmt.Sprintf("[%s]", ZI(res.status)))
+			r.stats["end_precancelled"]++
+			return
+		}
 		r.pending[op.Rid] = c
 		r.done[op.Rid] = done
 		r.order = append(r.order, op.Rid)
-		r.emit(coqop, fmt.Sprintf("[0; %d]", r.idOf[c.backend]))
-		r.stats["dispatched"]++
 	default:
 		res := <-done
 		reason := 0
@@ -310,7 +322,7 @@ func runLbCase(c *LbCase) (string, map[string]int) {
 			switch x := g.Intn(100); {
 			case x < 38:
 				cl := clients[g.Intn(len(clients))]
-				op = LbOp{K: "begin", Rid: r.nextRid, XFF: cl.XFF, XRI: cl.XRI, Remote: cl.Remote}
+				op = LbOp{K: "begin", Rid: r.nextRid, XFF: cl.XFF, XRI: cl.XRI, Remote: cl.Remote, Pre: g.Chance(6)}
 				if op.Remote == "" {
 					op.Remote = fmt.Sprintf("192.0.2.%d:%d", g.Range(1, 3), g.Range(1024, 60000))
 				}
